@@ -700,7 +700,11 @@ class Cone(Quadric):
         if new_axis != axis:
             a = angle(axis, new_axis)
             e = axis.join(new_axis)
-            t = rotation(a, axis=Point(*e.array[:3]))
+            n = Point(*e.array[:3])
+            t = rotation(a, axis=n)
+            if t * new_axis.direction != axis.direction:
+                # the sign of the angle depends on the orientation chosen for the plane of the two axes
+                t = rotation(-a, axis=n)
             t = translation(v) * t * translation(-v)
             m = t.array.T.dot(m).dot(t.array)
 
